@@ -10,6 +10,8 @@ namespace CtyModel
 namespace Refine
 open NumCmp
 
+variable [ExactOracle]
+
 /-- a concrete collection has at most `math.MaxInt` elements -/
 def Conc.fits : Conc → Bool
   | .coll k => decide ((k : Int) ≤ maxInt)
@@ -17,18 +19,22 @@ def Conc.fits : Conc → Bool
 
 /-! ## `Value.Refine()` -/
 
+omit [ExactOracle] in
 theorem core_unmark1 (p : Payload) : core p.unmark1 = core p := by
   cases p <;> rfl
 
+omit [ExactOracle] in
 theorem γV_unmark (v : Value) (x : Conc) : γV v.unmark x = γV v x := by
   unfold γV Value.unmark
   simp only [core_unmark1]
 
+omit [ExactOracle] in
 theorem kindOk_fresh {u : Value} {r : Rfn} (hu : u.v = .unk r) : kindOk u.ty (freshWip u) = true := by
   unfold freshWip
   have hn : u.isNull = false := by simp [Value.isNull, Payload.isNull, Payload.unmark1, hu]
   cases hty : u.ty <;> simp [kindOk, hn]
 
+omit [ExactOracle] in
 /-- what `v.Refine()` returns when it returns -/
 theorem init_ok {v : Value} {b : Builder} (h : init v = .ok b) :
     b.orig = v.unmark ∧ b.marks = v.marks ∧ b.wf = true ∧ b.orig.v.isMarked = false ∧
@@ -66,6 +72,7 @@ theorem init_ok {v : Value} {b : Builder} (h : init v = .ok b) :
         · rfl
       simp [Builder.wf, hm', hk]
 
+omit [ExactOracle] in
 /-- a fresh work-in-progress refinement admits what the bare type admits -/
 theorem γ_fresh {u : Value} (hu : u.v = .unk .unref) (x : Conc) (hx : x.fits = true) :
     γ u.ty (freshWip u) x = γ u.ty .unref x := by
@@ -75,6 +82,7 @@ theorem γ_fresh {u : Value} (hu : u.v = .unk .unref) (x : Conc) (hx : x.fits = 
     simp [γ, rangeOk, Rfn.nullness, hn, bytes, aboveLower, belowUpper, Conc.fits] at hx ⊢ <;>
     (intros; exact hx)
 
+omit [ExactOracle] in
 /-- the builder starts from exactly what the unknown value admitted -/
 theorem init_γ {v : Value} {b : Builder} (h : init v = .ok b) (hk : v.unmark.isKnown = false)
     (x : Conc) (hx : x.fits = true) : γB b x = γV v x := by
@@ -92,6 +100,7 @@ theorem init_γ {v : Value} {b : Builder} (h : init v = .ok b) (hk : v.unmark.is
   · have := hall r hr; subst this
     rw [hw]; exact γ_fresh hr x hx
 
+omit [ExactOracle] in
 theorem init_dyn {v : Value} {b : Builder} (h : init v = .ok b) (hd : isDynVal v.unmark = true) :
     b.isDyn = true ∧ b.orig = v.unmark := by
   obtain ⟨ho, _⟩ := init_ok h
@@ -107,13 +116,16 @@ theorem newValue_dyn {b : Builder} (hd : b.isDyn = true) :
     newValue b = .ok (b.orig.withMarks b.marks) := by
   unfold newValue; simp [hd]
 
+omit [ExactOracle] in
 theorem γV_unk (t : Ty) (r : Rfn) (x : Conc) : γV ⟨t, .unk r⟩ x = γ t r x := rfl
 
+omit [ExactOracle] in
 theorem γV_null {t : Ty} {r : Rfn} (hn : r.nullness = .t) (x : Conc) : γV (Value.null t) x = γ t r x := by
   unfold γV Value.null γ
   simp only [core, hn]
   cases x <;> simp [knownAdmits, nullOk, rangeOk_null] <;> first | rfl | decide
 
+omit [ExactOracle] in
 /-- equal inclusive bounds admit exactly the numbers equal to the bound -/
 theorem point_interval {lv hv : Num} (he : Num.cmp lv hv = 0) (y : Num) :
     (aboveLower (some ⟨lv, true⟩) y && belowUpper (some ⟨hv, true⟩) y) = (Num.cmp y lv == 0) := by
@@ -243,6 +255,7 @@ theorem newValue_exact {b : Builder} {w : Value} (hw : b.wf = true) (hk : b.orig
         rfl
       all_goals simp at h
 
+omit [ExactOracle] in
 theorem isKnown_withMarks {v : Value} (h : v.v.isMarked = false) (ms : List String) :
     (v.withMarks ms).isKnown = v.isKnown := by
   have h1 := unmark_withMarks h ms
@@ -313,11 +326,14 @@ def ValueRange.admits (r : ValueRange) (c : Conc) : Bool :=
      | _, _ => false)
   | .other => true
 
+omit [ExactOracle] in
 theorem aboveLower_negInf_incl' (y : Num) : aboveLower (some ⟨.inf true, true⟩) y = true :=
   aboveLower_negInf_incl y
+omit [ExactOracle] in
 theorem belowUpper_posInf_incl' (y : Num) : belowUpper (some ⟨.inf false, true⟩) y = true :=
   belowUpper_posInf_incl y
 
+omit [ExactOracle] in
 /-- `Range()` of an unknown value reports exactly its refinement -/
 theorem range_admits {t : Ty} {r : Rfn} (hkind : kindOk t r = true) (hn : r.nullness ≠ .t) :
     ∃ vr, range ⟨t, .unk r⟩ = .ok vr ∧ vr.ty = t ∧ ∀ x, x.fits = true → vr.admits x = γ t r x := by
@@ -374,6 +390,7 @@ theorem refine_ok {v w : Value} {cs : List RefineCall} (h : refine v cs = .ok w)
   | panic p => rw [hi] at h; simp [Res.bind] at h
   | unmodelled => rw [hi] at h; simp [Res.bind] at h
 
+omit [ExactOracle] in
 theorem withMarks_ty (v : Value) (ms : List String) : (v.withMarks ms).ty = v.ty := rfl
 
 /-- `NewValue` never changes the type -/
@@ -393,6 +410,7 @@ theorem run_base {b b' : Builder} {cs : List RefineCall} (h : run b cs = .ok b')
   · obtain ⟨h1, h2, _, h3, _⟩ := run_effect (by simpa using hd) h
     exact ⟨h1, h2, h3⟩
 
+omit [ExactOracle] in
 /-- what a fresh work-in-progress refinement admits, the bare type admits -/
 theorem γ_fresh_le {u : Value} (hu : u.v = .unk .unref) (x : Conc) (h : γ u.ty (freshWip u) x = true) :
     γ u.ty .unref x = true := by
@@ -406,6 +424,7 @@ theorem γ_fresh_le {u : Value} (hu : u.v = .unk .unref) (x : Conc) (h : γ u.ty
   rw [this] at h
   exact h.1.2
 
+omit [ExactOracle] in
 theorem init_γ_le {v : Value} {b : Builder} (h : init v = .ok b) (hk : v.unmark.isKnown = false)
     (x : Conc) (hx : γB b x = true) : γV v x = true := by
   obtain ⟨ho, _, _, hm, hw⟩ := init_ok h
@@ -430,6 +449,7 @@ def RefineCall.droppedAt : RefineCall → Conc → Bool
   | .numUpper .posInf false, .num (.inf false) => true
   | _, _ => false
 
+omit [ExactOracle] in
 theorem den_dropped {c : RefineCall} {x : Conc} (hc : c.dropped = true) (hx : c.droppedAt x = false) :
     den c x = true := by
   cases c with
@@ -451,12 +471,14 @@ theorem den_dropped {c : RefineCall} {x : Conc} (hc : c.dropped = true) (hx : c.
     | _ => rfl
   | _ => simp [RefineCall.dropped] at hc
 
+omit [ExactOracle] in
 theorem droppedAt_dropped {c : RefineCall} {x : Conc} (h : c.droppedAt x = true) : c.dropped = true := by
   unfold RefineCall.droppedAt at h
   split at h <;> first | rfl | simp at h
 
 /-! ## `cty.DynamicVal` and known receivers, end to end -/
 
+omit [ExactOracle] in
 theorem isDynVal_iff {u : Value} : isDynVal u = true ↔ u.ty = .dyn ∧ u.v = .unk .unref := by
   unfold isDynVal
   split
@@ -478,6 +500,7 @@ theorem refine_dyn (v : Value) (cs : List RefineCall) (hd : isDynVal v.unmark = 
   rw [hi]
   simp only [Res.bind, run_dyn hdb, newValue_dyn hdb]
 
+omit [ExactOracle] in
 /-- putting the marks of a value back on its unmarked form gives the value back
 (a marker always carries at least one mark, and only one marker layer exists) -/
 theorem withMarks_unmark_self {v : Value} (h1 : v.unmark.v.isMarked = false)
